@@ -167,6 +167,8 @@ fn div_rem(mut u: BigUint, mut d: BigUint) -> (BigUint, BigUint) {
     }
 
     if d.data.len() == 1 {
+        #[cfg(num_bigint_verif)]
+        crate::verif_probe::hit(24);
         if d.data == [1] {
             return (u, BigUint::ZERO);
         }
@@ -196,6 +198,8 @@ fn div_rem(mut u: BigUint, mut d: BigUint) -> (BigUint, BigUint) {
     let shift = d.data.last().unwrap().leading_zeros() as usize;
 
     if shift == 0 {
+        #[cfg(num_bigint_verif)]
+        crate::verif_probe::hit(25);
         // no need to clone d
         div_rem_core(u, &d.data)
     } else {
@@ -291,10 +295,14 @@ fn div_rem_core(mut a: BigUint, b: &[BigDigit]) -> (BigUint, BigUint) {
         // The first q0 estimate is [a1,a0] / b0. It will never be too small, it may be too large
         // by at most 2.
         let (mut q0, mut r) = if a0 < b0 {
+            #[cfg(num_bigint_verif)]
+            crate::verif_probe::hit(20);
             let (q0, r) = div_wide(a0, a1, b0);
             (q0, r as DoubleBigDigit)
         } else {
             debug_assert!(a0 == b0);
+            #[cfg(num_bigint_verif)]
+            crate::verif_probe::hit(21);
             // Avoid overflowing q0, we know the quotient fits in BigDigit.
             // [a1,a0] = b0 * (1<<BITS - 1) + (a0 + a1)
             (big_digit::MAX, a0 as DoubleBigDigit + a1 as DoubleBigDigit)
@@ -314,6 +322,8 @@ fn div_rem_core(mut a: BigUint, b: &[BigDigit]) -> (BigUint, BigUint) {
         {
             q0 -= 1;
             r += b0 as DoubleBigDigit;
+            #[cfg(num_bigint_verif)]
+            crate::verif_probe::hit(22);
         }
 
         // q0 is now either the correct quotient digit, or in rare cases 1 too large.
@@ -321,6 +331,8 @@ fn div_rem_core(mut a: BigUint, b: &[BigDigit]) -> (BigUint, BigUint) {
 
         let mut borrow = sub_mul_digit_same_len(&mut a.data[j..], b, q0);
         if borrow > a0 {
+            #[cfg(num_bigint_verif)]
+            crate::verif_probe::hit(23);
             // q0 is too large. We need to add back one multiple of b.
             q0 -= 1;
             borrow -= __add2(&mut a.data[j..], b);
@@ -727,5 +739,31 @@ impl Euclid for BigUint {
     fn div_rem_euclid(&self, v: &Self) -> (Self, Self) {
         // trivially same as regular division and remainder
         self.div_rem(v)
+    }
+}
+
+#[cfg(num_bigint_verif)]
+pub mod verif {
+    //! Verification-only wrappers around private functions.
+    use super::BigUint;
+    use alloc::vec::Vec;
+    pub fn div_wide(hi: u64, lo: u64, divisor: u64) -> (u64, u64) {
+        super::div_wide(hi, lo, divisor)
+    }
+    pub fn div_rem_digit(a: BigUint, b: u64) -> (BigUint, u64) {
+        super::div_rem_digit(a, b)
+    }
+    pub fn rem_digit(a: &BigUint, b: u64) -> u64 {
+        super::rem_digit(a, b)
+    }
+    pub fn sub_mul_digit_same_len(mut a: Vec<u64>, b: &[u64], c: u64) -> (Vec<u64>, u64) {
+        let r = super::sub_mul_digit_same_len(&mut a, b, c);
+        (a, r)
+    }
+    pub fn div_rem_core(a: BigUint, b: &[u64]) -> (BigUint, BigUint) {
+        super::div_rem_core(a, b)
+    }
+    pub fn div_rem(u: BigUint, d: BigUint) -> (BigUint, BigUint) {
+        super::div_rem(u, d)
     }
 }
